@@ -15,11 +15,13 @@
 (***************************************************************************************)
 EXTENDS TdxVerify
 
-CONSTANTS HistDims     \* dimensions from which the faulty world W is drawn (single deviations)
+CONSTANTS HistDims,    \* dimensions from which the faulty world W is drawn (single deviations)
+          HistQuick    \* TRUE: the quick selection of histories (below); FALSE: all of them
 
 Wids == {"T", "W", "B"}
 LevelsH == { [gc |-> FALSE, cr |-> FALSE], [gc |-> TRUE, cr |-> FALSE], [gc |-> TRUE, cr |-> TRUE] }
-StepsH == [wid : Wids, gc : BOOLEAN, cr : BOOLEAN]
+StepsH == [wid : Wids, gc : BOOLEAN, cr : BOOLEAN, entry : {"msg", "raw"}]     \* entry: TdxQuote on a message / RawTdxQuote on bytes
+Mids == {"none", "levels"}     \* levels: SupportedTcbLevelsFromCollateral is called between the two calls, through the same Options value
 GoodStep(s) == ~(s.cr /\ ~s.gc)
 FaultWorlds == UNION {Override(Baseline, {d}) : d \in HistDims}
 
@@ -27,16 +29,23 @@ FaultWorlds == UNION {Override(Baseline, {d}) : d \in HistDims}
 Twin(f) == IF f.qeSigner = "otherLeaf" THEN [Baseline EXCEPT !.leafId = (IF f.leafId = "l1" THEN "l2" ELSE "l1")] ELSE Baseline
 WorldOf(wid, f) == CASE wid = "T" -> Twin(f) [] wid = "W" -> f [] wid = "B" -> [Baseline EXCEPT !.modBranch = "modOk", !.sharedSigner = "shared"]
 
-VARIABLES fault, shared, hist, k, stored, verdicts
-hvars == <<fault, shared, hist, k, stored, verdicts>>
+VARIABLES fault, shared, mid, hist, k, stored, verdicts
+hvars == <<fault, shared, mid, hist, k, stored, verdicts>>
 
+OptOf(s) == [gc |-> s.gc, cr |-> s.cr, now |-> "set", entry |-> s.entry]
 NoStore == [chain |-> "none", collateral |-> "none"]
 HInit == /\ fault \in FaultWorlds /\ shared \in BOOLEAN
          /\ hist \in {<<a, b>> : a \in {s \in StepsH : GoodStep(s) /\ s.wid \in {"T", "B"}}, b \in StepsH}   \* the second call may also ask for revocation checking without collateral (refused, whatever the first call left behind)
+         /\ ~(hist[1].entry = "raw" /\ hist[2].entry = "raw")
+         /\ \A i \in 1..2 : Realisable(WorldOf(hist[i].wid, fault), OptOf(hist[i]))
+         /\ mid \in Mids /\ (mid = "levels" => shared /\ hist[1].gc)          \* the reporting call needs the collateral the first call fetched
+         \* quick selection: every message/message history (the reporting call in between only before a call that asks for revocation
+         \* checking) and, of those that mix the two entry points, the ones that keep the option level
+         /\ (HistQuick => IF hist[1].entry = "msg" /\ hist[2].entry = "msg" THEN (mid = "none" \/ hist[2].cr)
+                          ELSE mid = "none" /\ hist[1].gc = hist[2].gc /\ hist[1].cr = hist[2].cr)
          /\ k = 1 /\ stored = NoStore /\ verdicts = <<>>
          /\ w = Baseline /\ o = [gc |-> FALSE, cr |-> FALSE, now |-> "set", entry |-> "msg"] /\ pc = 1 /\ verdict = "none" /\ fetches = <<>> /\ dp = 1
 
-OptOf(s) == [gc |-> s.gc, cr |-> s.cr, now |-> "set", entry |-> "msg"]
 \* one call: store the per-call state (always, unconditionally), then verify from the stored state
 Call == /\ k <= Len(hist)
         /\ LET s == hist[k] wk == WorldOf(s.wid, fault) IN
@@ -44,7 +53,7 @@ Call == /\ k <= Len(hist)
              /\ stored' = [chain |-> s.wid, collateral |-> IF s.gc THEN s.wid ELSE "nil"]
              /\ verdicts' = Append(verdicts, CodeVerdict(wk, OptOf(s)))
         /\ k' = k + 1
-        /\ UNCHANGED <<fault, shared, hist, pc, verdict, fetches, dp>>
+        /\ UNCHANGED <<fault, shared, mid, hist, pc, verdict, fetches, dp>>
 HNext == Call
 HSpec == HInit /\ [][HNext]_<<hvars, vars>>
 
